@@ -2,7 +2,7 @@
    sees in a build form  start [prior] provide* [avail [complete]]  and are therefore accepted by proto_prefix_ok for the
    request multiset made of the slots that were provided. *)
 From LLB Require Import Engine.Rules Engine.Spec Engine.Impl Engine.ImplProofs Engine.ImplProofsSticky Engine.ImplProofsMono Engine.ImplProofsInv
-  Engine.ImplProofsInv2 Engine.ImplProofsInv3 Engine.ImplProofsInv9 Engine.Protocol.
+  Engine.ImplProofsInv2 Engine.ImplProofsInv3 Engine.ImplProofsInv4 Engine.ImplProofsInv5 Engine.ImplProofsInv6 Engine.ImplProofsInv7 Engine.ImplProofsInv8 Engine.ImplProofsInv9 Engine.ImplProofsAvail Engine.Protocol.
 From Coq Require Import Arith Lia.
 Local Open Scope N_scope.
 
@@ -54,7 +54,579 @@ Definition qok (s : istate) (k : key) (q : ph) : Prop :=
 
 (* the events a piece of the run adds are accepted from every automaton state that fits the state before, and lead to one that fits after *)
 Definition R2 (s s' : istate) : Prop :=
-  nf s' -> exists l, is_log s' = l ++ is_log s /\ forall k q, qok s k q -> exists q', runA q (projl k l) = Some q' /\ qok s' k q'.
+  nf s' -> nf s /\ exists l, is_log s' = l ++ is_log s /\ forall k q, qok s k q -> exists q', runA q (projl k l) = Some q' /\ qok s' k q'.
 
 Lemma R2_refl s : R2 s s.
-Proof. intros _. exists []. split; auto. intros k q H. exists q. split; auto. Qed.
+Proof. intros Hn. split; auto. exists []. split; auto. intros k q H. exists q. split; auto. Qed.
+
+Lemma R2_trans s1 s2 s3 : R2 s1 s2 -> R2 s2 s3 -> R2 s1 s3.
+Proof.
+  intros H12 H23 H3. destruct (H23 H3) as (H2 & l2 & Hl2 & Hq2). destruct (H12 H2) as (H1 & l1 & Hl1 & Hq1). split; auto.
+  exists (l2 ++ l1). split; [rewrite Hl2, Hl1; now rewrite app_assoc|].
+  intros k q Hq. destruct (Hq1 k q Hq) as (q1 & Hr1 & Hok1). destruct (Hq2 k q1 Hok1) as (q2 & Hr2 & Hok2).
+  exists q2. split; auto. now rewrite projl_app, runA_app, Hr1.
+Qed.
+
+(* ---------- steps that no task observes ---------- *)
+Definition qpres (r : nat) (p : bool) (r' : nat) (p' : bool) : Prop :=
+  ((r <= 2)%nat -> (r' <= 2)%nat \/ r' = 5%nat) /\ (r = 3%nat -> r' = 3%nat) /\
+  (r = 4%nat -> (r' = 4%nat /\ p' = p) \/ (p = false /\ r' = 5%nat)) /\ (r = 5%nat -> r' = 5%nat).
+Lemma qpres_refl r p : qpres r p r p.
+Proof. unfold qpres. repeat split; auto. Qed.
+Lemma qpres_trans r1 p1 r2 p2 r3 p3 : qpres r1 p1 r2 p2 -> qpres r2 p2 r3 p3 -> qpres r1 p1 r3 p3.
+Proof.
+  unfold qpres. intros (A1 & A2 & A3 & A4) (B1 & B2 & B3 & B4). repeat split.
+  - intros H. destruct (A1 H) as [H2|H2]; auto.
+  - intros H. auto.
+  - intros H. destruct (A3 H) as [[H2 Hp]|[Hp H2]].
+    + destruct (B3 H2) as [[H3 Hp3]|[Hp3 H3]]; [left; split; congruence|right; split; congruence].
+    + right. split; auto.
+  - intros H. auto.
+Qed.
+Lemma qpres_qok s s' k q : qpres (krank s k) (pend s k) (krank s' k) (pend s' k) -> qok s k q -> qok s' k q.
+Proof.
+  unfold qpres, qok. intros (A1 & A2 & A3 & A4). destruct q.
+  - intros [H|H]; [destruct (A1 H); auto|right; auto].
+  - auto.
+  - auto.
+  - intros [H Hp]. destruct (A3 H) as [[H2 Hp2]|[Hp2 _]]; [split; congruence|congruence].
+  - intros [[H Hp]|H]; [|right; auto]. destruct (A3 H) as [[H2 Hp2]|[_ H2]]; [left; split; congruence|right; auto].
+Qed.
+
+Definition QT (s s' : istate) : Prop :=
+  nf s' -> nf s /\ exists l, is_log s' = l ++ is_log s /\ (forall k, projl k l = []) /\
+                  forall k, qpres (krank s k) (pend s k) (krank s' k) (pend s' k).
+Lemma QT_R2 s s' : QT s s' -> R2 s s'.
+Proof.
+  intros H Hn. destruct (H Hn) as (Hn0 & l & Hl & Hp & Hq). split; auto. exists l. split; auto.
+  intros k q Hok. exists q. rewrite Hp. split; auto. eapply qpres_qok; eauto.
+Qed.
+Lemma QT_refl s : QT s s.
+Proof. intros Hn. split; auto. exists []. split; [auto|]. split; [auto|]. intros k. apply qpres_refl. Qed.
+Lemma QT_trans s1 s2 s3 : QT s1 s2 -> QT s2 s3 -> QT s1 s3.
+Proof.
+  intros H12 H23 H3. destruct (H23 H3) as (H2 & l2 & Hl2 & Hp2 & Hq2). destruct (H12 H2) as (H1 & l1 & Hl1 & Hp1 & Hq1). split; auto.
+  exists (l2 ++ l1). split; [rewrite Hl2, Hl1; now rewrite app_assoc|]. split.
+  - intros k. now rewrite projl_app, Hp1, Hp2.
+  - intros k. eapply qpres_trans; eauto.
+Qed.
+
+Lemma pend_set_ti s t ti k : pend (set_ti s t ti) k = if N.eqb k t then match ti_pending ti with Some _ => true | None => false end else pend s k.
+Proof. unfold pend. autorewrite with iv. rewrite aget_aset. now destruct (N.eqb k t). Qed.
+
+Lemma QT_frame s s' : (nf s' -> nf s) -> is_log s' = is_log s -> is_epoch s' = is_epoch s -> (forall k, rinfo_of s' k = rinfo_of s k) ->
+  (forall k, pend s' k = pend s k) -> QT s s'.
+Proof.
+  intros Hn Hl He Hr Hp H. split; auto. exists []. split; [auto|]. split; [auto|]. intros k. unfold krank. rewrite He, Hr, Hp. apply qpres_refl.
+Qed.
+Ltac qtf := apply QT_frame; [intros Hf; unfold nf in *; now autorewrite with iv in Hf | now autorewrite with iv | now autorewrite with iv
+                            | intros; now autorewrite with iv | intros; unfold pend; now autorewrite with iv].
+Ltac qts L := eapply QT_trans; [|apply L].
+
+Definition silent (e : event) : Prop := forall k, pproj k e = None.
+Lemma QT_iemit s e : silent e -> QT s (iemit s e).
+Proof.
+  intros Hs H. split; [now apply nf_iemit in H|]. exists [e]. split; [reflexivity|]. split.
+  - intros k. cbn [projl]. now rewrite Hs.
+  - intros k. apply qpres_refl.
+Qed.
+Lemma QT_fault s c : QT s (fault s c). Proof. intros H. now apply nf_fault in H. Qed.
+Lemma QT_check s b c : QT s (check s b c). Proof. destruct b; [apply QT_refl|apply QT_fault]. Qed.
+Lemma QT_touch s k : QT s (touch s k). Proof. qtf. Qed.
+Lemma QT_push_inreq s rq : QT s (push_inreq s rq). Proof. qtf. Qed.
+Lemma QT_upd_toscan s m : QT s (upd_toscan s m). Proof. qtf. Qed.
+Lemma QT_upd_inreq s m : QT s (upd_inreq s m). Proof. qtf. Qed.
+Lemma QT_upd_fininreq s m : QT s (upd_fininreq s m). Proof. qtf. Qed.
+Lemma QT_upd_ready s m : QT s (upd_ready s m). Proof. qtf. Qed.
+Lemma QT_upd_fintasks s m : QT s (upd_fintasks s m). Proof. qtf. Qed.
+Lemma QT_upd_outstanding s m : QT s (upd_outstanding s m). Proof. qtf. Qed.
+
+(* a task record changes, "has a pending value" stays *)
+Lemma QT_set_ti s t ti ti' : aget (is_tasks s) t = Some ti ->
+  (match ti_pending ti' with Some _ => true | None => false end) = (match ti_pending ti with Some _ => true | None => false end) -> QT s (set_ti s t ti').
+Proof.
+  intros Hg Hp. apply QT_frame; [intros Hf; now apply nf_set_ti in Hf|now autorewrite with iv|now autorewrite with iv|intros; now autorewrite with iv|].
+  intros k. rewrite pend_set_ti. destruct (N.eqb k t) eqn:E; auto. apply N.eqb_eq in E. subst k. unfold pend. now rewrite Hg.
+Qed.
+Lemma QT_mod_ti s t f : (forall ti, ti_pending (f ti) = ti_pending ti) -> QT s (mod_ti s t f).
+Proof. intros Hf. unfold mod_ti. destruct (aget (is_tasks s) t) eqn:E; [|apply QT_fault]. eapply QT_set_ti; eauto. now rewrite Hf. Qed.
+
+(* a rule record changes in a way no task notices *)
+Lemma QT_mod_ri s k f :
+  (let r := rrank (is_epoch s) (rinfo_of s k) in let r' := rrank (is_epoch s) (f (rinfo_of s k)) in
+   ((r <= 2)%nat -> (r' <= 2)%nat \/ r' = 5%nat) /\ (r = 3%nat -> r' = 3%nat) /\ (r = 4%nat -> r' = 4%nat) /\ (r = 5%nat -> r' = 5%nat)) ->
+  QT s (mod_ri s k f).
+Proof.
+  cbn zeta. intros (A1 & A2 & A3 & A4) H. split; [now apply nf_mod_ri in H|]. exists []. split; [auto|]. split; [auto|].
+  intros k0. rewrite krank_mod_ri. change (pend (mod_ri s k f) k0) with (pend s k0).
+  destruct (N.eqb k0 k) eqn:E; [|apply qpres_refl]. apply N.eqb_eq in E. subst k0. fold (krank s k) in *.
+  unfold qpres. repeat split; auto.
+Qed.
+Lemma QT_mod_ri_same s k f : (forall ri, ri_kind (f ri) = ri_kind ri /\ res_builtAt (ri_res (f ri)) = res_builtAt (ri_res ri)) -> QT s (mod_ri s k f).
+Proof.
+  intros Hf. apply QT_mod_ri. cbn zeta. unfold rrank. destruct (Hf (rinfo_of s k)) as [-> ->]. repeat split; auto.
+Qed.
+
+(* ---------- functions no task observes ---------- *)
+Lemma ti_inc_wait_pending ti : ti_pending (ti_inc_wait ti) = ti_pending ti. Proof. reflexivity. Qed.
+Lemma QT_add_request s t inp slot o sg : QT s (add_request s t inp slot o sg).
+Proof.
+  unfold add_request. destruct (aget _ _); [|apply QT_fault]. destruct (negb _); [apply QT_fault|].
+  qts QT_mod_ti; [|reflexivity]. qts QT_push_inreq. apply QT_touch.
+Qed.
+Lemma QT_add_reqs ks : forall s t slot sg, QT s (add_reqs s t ks slot sg).
+Proof. induction ks as [|x ks IH]; intros; cbn [add_reqs]; [apply QT_refl|]. eapply QT_trans; [apply QT_add_request|apply IH]. Qed.
+Lemma QT_add_follows ks : forall s t, QT s (add_follows s t ks).
+Proof. induction ks as [|x ks IH]; intros; cbn [add_follows]; [apply QT_refl|]. eapply QT_trans; [apply QT_add_request|apply IH]. Qed.
+Lemma QT_start_group rules s t c : QT s (start_group rules s t c).
+Proof. unfold start_group. destruct c; [apply QT_add_reqs|apply QT_add_reqs|apply QT_add_follows]. Qed.
+Lemma QT_fold {A} (f : istate -> A -> istate) (Hf : forall s a, QT s (f s a)) l : forall s, QT s (fold_left f l s).
+Proof. induction l as [|a l IH]; intros s; cbn [fold_left]; [apply QT_refl|]. eapply QT_trans; [apply Hf|apply IH]. Qed.
+Lemma QT_branch_reqs ks : forall s t, QT s (branch_reqs s t ks).
+Proof.
+  induction ks as [|x ks IH]; intros; cbn [branch_reqs]; [apply QT_refl|].
+  destruct (aget (is_tasks s) t) eqn:E; [|apply QT_fault]. eapply QT_trans; [|apply IH]. qts QT_add_request. eapply QT_set_ti; eauto.
+Qed.
+Lemma QT_discovered s t d : QT s (discovered s t d).
+Proof. unfold discovered. destruct (aget _ _); [|apply QT_fault]. destruct (negb _); [apply QT_fault|now apply QT_mod_ti]. Qed.
+Lemma QT_set_res_same s k r : res_builtAt r = res_builtAt (res_of s k) -> QT s (set_res s k r).
+Proof.
+  intros Hb. unfold set_res. apply QT_mod_ri. cbn zeta. unfold rrank, ri_with_res. cbn [ri_kind ri_res]. unfold res_of in Hb. rewrite Hb. repeat split; auto.
+Qed.
+Lemma QT_task_is_complete rules s t v : QT s (task_is_complete rules s t v).
+Proof.
+  unfold task_is_complete. destruct (negb _); [apply QT_fault|]. cbn zeta. qts QT_upd_fintasks. apply QT_set_res_same. apply completed_result_built.
+Qed.
+Lemma silent_need k r i : silent (ENeed k r i). Proof. intros k'. reflexivity. Qed.
+Lemma silent_valid k b : silent (EValid k b). Proof. intros k'. reflexivity. Qed.
+Lemma silent_create k : silent (ECreate k). Proof. intros k'. reflexivity. Qed.
+
+Lemma QT_set_kind_low s k kd : (krank s k <= 2)%nat -> (kd = KScanning \/ kd = KNeedsToRun \/ kd = KDoesNotNeedToRun) -> QT s (set_kind s k kd).
+Proof.
+  intros Hr Hkd. unfold set_kind. apply QT_mod_ri. cbn zeta. fold (krank s k).
+  assert (Hn : (rrank (is_epoch s) (ri_with_kind kd (rinfo_of s k)) <= 2)%nat) by (unfold rrank, ri_with_kind; cbn [ri_kind]; destruct Hkd as [->|[->| ->]]; lia).
+  repeat split; intros; try lia; try (now left).
+Qed.
+Lemma QT_need s k r i : (krank s k <= 2)%nat -> QT s (need s k r i).
+Proof. intros H. unfold need. eapply QT_trans; [|apply QT_iemit, silent_need]. apply QT_set_kind_low; auto. Qed.
+
+Lemma QT_scan_rule rules env s k : QT s (snd (scan_rule rules env s k)).
+Proof.
+  unfold scan_rule. destruct (is_scanned s k) eqn:E1; [apply QT_refl|]. destruct (kind_eqb _ _) eqn:E2; [apply QT_refl|]. cbn zeta.
+  pose proof (unscanned_rank0 s k E1 E2) as H0.
+  assert (H1 : krank (mod_ri s k ri_clean_single) k = 0%nat) by (rewrite krank_mod_ri, N.eqb_refl, rrank_clean_single; exact H0).
+  assert (Hc : QT s (mod_ri s k ri_clean_single)) by (now apply QT_mod_ri_same).
+  destruct (N.eqb _ 0); [cbn [snd]; qts QT_need; [exact Hc|lia]|].
+  destruct (ri_cancelled _); [cbn [snd]; qts QT_need; [exact Hc|lia]|].
+  destruct (negb (N.eqb _ _)); [cbn [snd]; qts QT_need; [exact Hc|lia]|].
+  destruct (negb (valid _ _ _ _)).
+  { cbn [snd]. qts QT_need; [|rewrite krank_iemit; lia]. eapply QT_trans; [exact Hc|apply QT_iemit, silent_valid]. }
+  destruct (res_deps _); cbn [snd].
+  - eapply QT_trans; [exact Hc|]. apply QT_trans with (iemit (mod_ri s k ri_clean_single) (EValid k true)); [apply QT_iemit, silent_valid|].
+    apply QT_set_kind_low; [rewrite krank_iemit; lia|auto].
+  - qts QT_upd_toscan. eapply QT_trans; [exact Hc|]. apply QT_trans with (iemit (mod_ri s k ri_clean_single) (EValid k true)); [apply QT_iemit, silent_valid|].
+    apply QT_mod_ri. cbn zeta. fold (krank (iemit (mod_ri s k ri_clean_single) (EValid k true)) k). rewrite krank_iemit, H1.
+    unfold rrank, ri_begin_scan. cbn [ri_kind]. repeat split; intros; try lia; try (left; lia).
+Qed.
+
+(* ---------- createTask: the task sees start [prior] ---------- *)
+Lemma QT_task_start_rest rules ord s t :
+  QT s (fold_left (fun s c => start_group rules s t c) (ord t) (mod_ti s t (ti_with_slots (initial_slots (rules t))))).
+Proof. eapply QT_trans; [|apply QT_fold; intros; apply QT_start_group]. now apply QT_mod_ti. Qed.
+
+Lemma QT_ready_if_nowait s k : QT s (ready_if_nowait s k).
+Proof. unfold ready_if_nowait. destruct (aget _ _); [|apply QT_fault]. destruct (Nat.eqb _ _); [apply QT_upd_ready|apply QT_refl]. Qed.
+
+Lemma pend_begin_task s k k' : aget (is_tasks s) k = None -> pend (begin_task s k) k' = pend s k'.
+Proof.
+  intros Hno. unfold pend. rewrite begin_task_tasks, aget_aset. destruct (N.eqb k' k) eqn:E; auto.
+  apply N.eqb_eq in E. subst k'. now rewrite Hno.
+Qed.
+
+Lemma projl_single k e : projl k [e] = match pproj k e with Some p => [p] | None => [] end.
+Proof. reflexivity. Qed.
+
+Lemma R2_create_task rules ord s k : aget (is_tasks s) k = None -> R2 s (create_task rules ord s k).
+Proof.
+  intros Hno Hn. split; [now apply sticky_create_task in Hn|]. unfold create_task in *. cbn zeta in *.
+  destruct (kind_eqb (kind_of s k) KNeedsToRun) eqn:Ek.
+  2:{ exfalso. apply sticky_ready_if_nowait, sticky_prior_value, sticky_task_start, sticky_begin_task in Hn. now apply nf_fault in Hn. }
+  cbn [check] in *. apply kind_eqb_eq in Ek.
+  assert (Hr2 : krank s k = 2%nat) by (rewrite (krank_kind s k _ Ek); [reflexivity|discriminate]).
+  set (s1 := begin_task s k) in *.
+  unfold task_start in *. cbn zeta in *.
+  set (s2 := fold_left _ (ord k) _) in *.
+  set (s3 := prior_value rules s2 k) in *.
+  (* the silent parts *)
+  assert (Hn3 : nf s3) by (now apply sticky_ready_if_nowait in Hn).
+  assert (Hn2 : nf s2) by (now apply sticky_prior_value in Hn3).
+  destruct (QT_ready_if_nowait s3 k Hn) as (_ & l4 & Hl4 & Hp4 & Hq4).
+  destruct (QT_task_start_rest rules ord (iemit s1 (EStart k)) k Hn2) as (_ & l2 & Hl2 & Hp2 & Hq2). fold s2 in Hl2, Hq2.
+  (* the prior value *)
+  assert (HD : exists l3, is_log s3 = l3 ++ is_log s2 /\ (forall k', projl k' l3 = if N.eqb k' k then projl k l3 else []) /\
+                          (projl k l3 = [] \/ projl k l3 = [PPrior]) /\ (forall k', krank s3 k' = krank s2 k' /\ pend s3 k' = pend s2 k')).
+  { unfold s3, prior_value. cbn zeta. destruct (_ && _).
+    - exists [EPrior k (res_value (res_of s2 k))]. split; [reflexivity|]. split; [|split; [right; cbn [projl pproj]; now rewrite N.eqb_refl|auto]].
+      intros k'. cbn [projl pproj app]. destruct (N.eqb k' k) eqn:E; auto. apply N.eqb_eq in E. subst k'. now rewrite N.eqb_refl.
+    - exists []. split; [reflexivity|]. split; [intros k'; now destruct (N.eqb k' k)|split; [now left|auto]]. }
+  destruct HD as (l3 & Hl3 & Hp3 & Hk3 & Hq3).
+  exists (l4 ++ l3 ++ l2 ++ [EStart k; ECreate k]). split.
+  { rewrite Hl4, Hl3, Hl2. unfold s1, begin_task. autorewrite with iv. now rewrite <- !app_assoc. }
+  intros k' q Hok. rewrite !projl_app, Hp4, Hp2, app_nil_r. cbn [projl pproj app].
+  destruct (N.eqb k' k) eqn:E.
+  - apply N.eqb_eq in E. subst k'. cbn [app].
+    assert (Hq : q = HInit). { destruct q; cbn [qok] in Hok; auto; try lia; destruct Hok as [Hok|Hok]; lia. }
+    subst q.
+    assert (Hr3 : krank (ready_if_nowait s3 k) k = 3%nat).
+    { destruct (Hq4 k) as (_ & A2 & _). apply A2. destruct (Hq3 k) as [-> _]. destruct (Hq2 k) as (_ & B2 & _). apply B2.
+      rewrite krank_iemit. unfold s1, begin_task. rewrite krank_mod_ri, N.eqb_refl. reflexivity. }
+    destruct Hk3 as [-> | ->]; cbn [runA stepA app]; [exists HStartedA|exists HStartedB]; split; auto.
+  - rewrite Hp3, E. cbn [app runA]. exists q. split; auto.
+    eapply qpres_qok; [|exact Hok]. eapply qpres_trans; [|apply Hq4]. destruct (Hq3 k') as [-> ->].
+    eapply qpres_trans; [|apply Hq2]. rewrite krank_iemit. change (pend (iemit s1 (EStart k)) k') with (pend s1 k').
+    unfold s1. rewrite (pend_begin_task s k k' Hno). unfold begin_task. rewrite krank_mod_ri, E. apply qpres_refl.
+Qed.
+
+Definition no_task_when_idle (s : istate) : Prop := forall k, kind_of s k = KNeedsToRun -> aget (is_tasks s) k = None.
+
+Lemma R2_demand_rule rules ord s k : no_task_when_idle s -> R2 s (snd (demand_rule rules ord s k)).
+Proof.
+  intros Hnt. unfold demand_rule. destruct (is_complete s k); [apply R2_refl|]. destruct (is_in_progress s k); [apply R2_refl|].
+  destruct (kind_eqb (kind_of s k) KDoesNotNeedToRun) eqn:E; cbn [snd].
+  - apply QT_R2. unfold set_complete. apply QT_mod_ri. cbn zeta. apply kind_eqb_eq in E. unfold kind_of in E.
+    assert (H2 : rrank (is_epoch s) (rinfo_of s k) = 2%nat) by (unfold rrank; now rewrite E).
+    assert (H5 : rrank (is_epoch s) (ri_complete (is_epoch s) (rinfo_of s k)) = 5%nat).
+    { unfold rrank, ri_complete, ri_with_kind, ri_with_res, res_with_built. cbn [ri_kind ri_res res_builtAt]. now rewrite N.eqb_refl. }
+    rewrite H2, H5. repeat split; intros; try lia; try (now right).
+  - destruct (kind_eqb (kind_of s k) KNeedsToRun) eqn:E2.
+    + apply R2_create_task. apply Hnt. now apply kind_eqb_eq.
+    + intros Hn. exfalso. unfold create_task in Hn. cbn zeta in Hn. rewrite E2 in Hn. cbn [check] in Hn.
+      apply sticky_ready_if_nowait, sticky_prior_value, sticky_task_start, sticky_begin_task in Hn. now apply nf_fault in Hn.
+Qed.
+
+Lemma QT_finish_scan s k kd : kd = KNeedsToRun \/ kd = KDoesNotNeedToRun -> QT s (finish_scan s k kd).
+Proof.
+  intros Hkd. unfold finish_scan. cbn zeta. destruct (kind_eqb (kind_of s k) KScanning) eqn:E.
+  - cbn [check]. unfold wake_scan_record. eapply QT_trans; [|apply QT_mod_ri].
+    + qts QT_upd_inreq. apply QT_upd_toscan.
+    + cbn zeta. autorewrite with iv. apply kind_eqb_eq in E. unfold kind_of in E.
+      assert (H1 : rrank (is_epoch s) (rinfo_of s k) = 1%nat) by (unfold rrank; now rewrite E).
+      assert (H2 : rrank (is_epoch s) (ri_end_scan kd (rinfo_of s k)) = 2%nat) by (unfold rrank, ri_end_scan; cbn [ri_kind]; now destruct Hkd as [-> | ->]).
+      change (is_epoch (upd_inreq _ _)) with (is_epoch s). rewrite H1, H2. repeat split; intros; try lia; try (left; lia).
+  - intros H. exfalso. apply nf_mod_ri in H. unfold wake_scan_record, nf in H. autorewrite with iv in H.
+    cbn [check] in H. fold (nf (fault s FNotScanning)) in H. now apply nf_fault in H.
+Qed.
+Lemma QT_defer_on_rule s inp rq : QT s (defer_on_rule s inp rq).
+Proof. unfold defer_on_rule. eapply QT_trans; [apply QT_check|]. now apply QT_mod_ri_same. Qed.
+Lemma QT_pause_on_rule s inp rq : QT s (pause_on_rule s inp rq).
+Proof. unfold pause_on_rule. eapply QT_trans; [apply QT_check|]. now apply QT_mod_ri_same. Qed.
+Lemma QT_defer_on_task s inp rq : QT s (defer_on_task s inp rq).
+Proof. unfold defer_on_task. now apply QT_mod_ti. Qed.
+Lemma QT_route_request s t rq avail : QT s (route_request s t rq avail).
+Proof. unfold route_request. cbn zeta. destruct avail; [qts QT_upd_fininreq|qts QT_mod_ti; [|reflexivity]]; now apply QT_mod_ri_same. Qed.
+
+Lemma Inv_no_task_when_idle rules c s : Inv rules c s -> no_task_when_idle s.
+Proof. intros (_ & HT & _) k Hk. eapply no_task_of_kind; eauto. Qed.
+
+(* ---------- processRuleScanRequest / one input request ---------- *)
+Lemma R2_scan_inputs rules env ord c0 fs' ds : forall s rq,
+  cx_ex c0 = None -> Inv rules (cx_set_fs c0 (rq :: fs')) s -> skipn (sq_index rq) (res_deps (res_of s (sq_rule rq))) = ds ->
+  R2 s (scan_inputs rules env ord s rq ds).
+Proof.
+  induction ds as [|d ds IH]; intros s rq Hex HI Hsk; cbn [scan_inputs]; [apply QT_R2, QT_fault|]. cbn zeta.
+  set (k := sq_rule rq). set (inp := request_input rq d). set (rq1 := fill_request rq d).
+  pose proof (Inv_head_ok rules (cx_set_fs c0 (rq :: fs')) s rq fs' eq_refl HI) as Hrqok.
+  assert (Hk : kind_of s k = KScanning) by apply Hrqok.
+  assert (HI1 : Inv rules (cx_set_fs c0 (rq1 :: fs')) (touch s inp)).
+  { apply Inv_touch. apply (Inv_replace_fs rules (cx_set_fs c0 (rq :: fs')) s rq rq1 fs'); auto; [apply fill_request_rule|eapply sreq_ok_fill; eauto]. }
+  pose proof (QT_scan_rule rules env (touch s inp) inp) as Q1.
+  destruct (scan_rule rules env (touch s inp) inp) as [b1 s1] eqn:E1. cbn [snd] in Q1.
+  destruct (scan_rule_post rules env _ _ _ _ _ E1 HI1) as (HI2 & KS & Hf1 & Ht1).
+  assert (Q1' : R2 s s1) by (apply QT_R2; eapply QT_trans; [apply QT_touch|exact Q1]).
+  destruct b1; [|eapply R2_trans; [exact Q1'|apply QT_R2, QT_defer_on_rule]].
+  specialize (Ht1 eq_refl).
+  assert (Hne : inp <> k).
+  { intros E. destruct KS as (_ & _ & _ & _ & _ & _ & _ & _ & KSs & _).
+    assert (Hks : kind_of (touch s inp) inp = KScanning) by (unfold kind_of; rewrite rinfo_of_touch, E; exact Hk).
+    assert (Hk1 : kind_of s1 inp = KScanning) by (unfold kind_of in *; now rewrite (KSs Hks)).
+    rewrite (scanning_not_scanned s1 inp Hk1) in Ht1. discriminate. }
+  pose proof (R2_demand_rule rules ord s1 inp (Inv_no_task_when_idle rules _ s1 HI2)) as Q2.
+  destruct (demand_rule rules ord s1 inp) as [b2 s2] eqn:E2. cbn [snd] in Q2.
+  destruct (demand_rule_post rules ord _ _ _ _ _ E2 HI2 Hex Ht1) as (HI3 & KD & Hf2 & Ht2).
+  assert (Q2' : R2 s s2) by (eapply R2_trans; eauto).
+  destruct b2; [|eapply R2_trans; [exact Q2'|apply QT_R2, QT_defer_on_task]].
+  assert (Hr2 : rinfo_of s2 k = rinfo_of s k).
+  { destruct KD as (KD1 & _). rewrite (KD1 k); auto. destruct KS as (KS1 & _). rewrite (KS1 k); [apply rinfo_of_touch|auto]. }
+  destruct (negb (sq_order rq1) && input_rebuilt s2 k inp).
+  { eapply R2_trans; [exact Q2'|]. apply QT_R2. eapply QT_trans; [apply QT_finish_scan; now left|apply QT_iemit, silent_need]. }
+  destruct ds as [|d' ds'].
+  { eapply R2_trans; [exact Q2'|]. apply QT_R2. apply QT_finish_scan. now right. }
+  destruct (skipn_head_nth _ _ _ _ Hsk) as (_ & _ & Hsk').
+  set (rq2 := mkSReq k (S (sq_index rq1)) None false false).
+  assert (Hidx : sq_index rq1 = sq_index rq) by apply fill_request_index.
+  assert (Hsk2 : skipn (sq_index rq2) (res_deps (res_of s2 (sq_rule rq2))) = d' :: ds').
+  { cbn [rq2 sq_index sq_rule]. unfold res_of. rewrite Hr2, Hidx. exact Hsk'. }
+  eapply R2_trans; [exact Q2'|]. apply (IH s2 rq2); auto.
+  assert (Hrq1 : sq_rule rq1 = k) by apply fill_request_rule.
+  apply (Inv_replace_fs rules (cx_set_fs c0 (rq1 :: fs')) s2 rq1 rq2 fs'); auto.
+  unfold sreq_ok. cbn [rq2 sq_rule sq_index sq_input]. split; [unfold kind_of; rewrite Hr2; exact Hk|]. split; [|discriminate].
+  destruct (skipn_head_nth _ _ _ _ Hsk2) as (_ & Hlt & _). exact Hlt.
+Qed.
+
+Lemma R2_step_scan rules env ord s : Inv rules ctx0 s -> R2 s (step_scan rules env ord s).
+Proof.
+  intros HI. unfold step_scan. destruct (is_toscan s) as [|rq rest] eqn:Hq; [apply R2_refl|].
+  pose proof (Inv_pop_toscan rules ctx0 s rq rest Hq HI) as HI1.
+  pose proof (Inv_head_ok rules (cx_set_fs ctx0 (rq :: cx_fs ctx0)) (upd_toscan s rest) rq (cx_fs ctx0) eq_refl HI1) as (Hk & _).
+  unfold process_scan_request. rewrite Hk. cbn [kind_eqb negb].
+  eapply R2_trans; [apply QT_R2, QT_upd_toscan|]. eapply (R2_scan_inputs rules env ord ctx0 (cx_fs ctx0)); eauto.
+Qed.
+
+Lemma R2_step_inreq rules env ord s : Inv rules ctx0 s -> R2 s (step_inreq rules env ord s).
+Proof.
+  intros HI. unfold step_inreq. destruct (is_inreq s) as [|rq rest] eqn:Hq; [apply R2_refl|].
+  pose proof (Inv_pop_inreq rules ctx0 s rq rest Hq HI) as HI0. set (c := cx_set_fi ctx0 (rq :: cx_fi ctx0)) in *.
+  eapply R2_trans; [apply QT_R2, QT_upd_inreq|]. unfold process_input_request.
+  pose proof (QT_scan_rule rules env (upd_inreq s rest) (iq_input rq)) as Q1.
+  destruct (scan_rule rules env (upd_inreq s rest) (iq_input rq)) as [b1 s1] eqn:E1. cbn [snd] in Q1.
+  destruct (scan_rule_post rules env c _ _ _ _ E1 HI0) as (HI1 & KS & Hf1 & Ht1).
+  destruct b1; [|eapply R2_trans; [apply QT_R2, Q1|apply QT_R2, QT_pause_on_rule]].
+  pose proof (R2_demand_rule rules ord s1 (iq_input rq) (Inv_no_task_when_idle rules _ s1 HI1)) as Q2.
+  destruct (demand_rule rules ord s1 (iq_input rq)) as [b2 s2] eqn:E2. cbn [snd] in Q2.
+  assert (Q2' : R2 (upd_inreq s rest) s2) by (eapply R2_trans; [apply QT_R2, Q1|exact Q2]).
+  destruct (iq_task rq); auto. eapply R2_trans; [exact Q2'|apply QT_R2, QT_route_request].
+Qed.
+
+(* ---------- one finished input request: the task sees provide ---------- *)
+Lemma R2_emit_provide s t slot inp v : krank s t = 3%nat -> R2 s (iemit s (EProvide t slot inp v)).
+Proof.
+  intros Hr Hn. split; [now apply nf_iemit in Hn|]. exists [EProvide t slot inp v]. split; [reflexivity|].
+  intros k q Hok. cbn [projl pproj app]. destruct (N.eqb k t) eqn:E.
+  - apply N.eqb_eq in E. subst k. destruct q; cbn [qok] in Hok; try lia; try (destruct Hok; lia);
+      try (destruct Hok as [[Hok _]|Hok]; lia); cbn [runA stepA]; exists HStartedB; split; auto.
+  - cbn [runA]. exists q. split; auto.
+Qed.
+
+Lemma store_slot_pending slot v ti : ti_pending (store_slot slot v ti) = ti_pending ti.
+Proof. unfold store_slot. now destruct (Nat.ltb _ _). Qed.
+
+Lemma R2_provide_value rules s t slot inp v : krank s t = 3%nat -> R2 s (provide_value rules s t slot inp v).
+Proof.
+  intros Hr. unfold provide_value. cbn zeta. eapply R2_trans; [apply (R2_emit_provide s t slot inp v Hr)|]. apply QT_R2.
+  destruct (aget (is_tasks (iemit s (EProvide t slot inp v))) t) as [ti|] eqn:E; [|apply QT_fault].
+  destruct (branch_fire _ _ _ _ _).
+  - qts QT_branch_reqs. eapply QT_set_ti; eauto. cbn [ti_with_branched ti_pending]. now rewrite store_slot_pending.
+  - eapply QT_set_ti; eauto. now rewrite store_slot_pending.
+Qed.
+
+Lemma QT_decrement_wait s t : QT s (decrement_wait s t).
+Proof.
+  unfold decrement_wait. destruct (aget (is_tasks s) t) as [ti|] eqn:E; [|apply QT_fault]. destruct (ti_wait ti); [apply QT_fault|]. cbn zeta.
+  destruct (Nat.eqb _ _); [qts QT_upd_ready|]; eapply QT_set_ti; eauto.
+Qed.
+
+Lemma krank_waiting s k : kind_of s k = KWaiting -> krank s k = 3%nat.
+Proof. intros H. rewrite (krank_kind s k _ H); [reflexivity|discriminate]. Qed.
+
+Lemma R2_step_fininreq rules s : Inv rules ctx0 s -> R2 s (step_fininreq rules s).
+Proof.
+  intros HI. unfold step_fininreq. destruct (is_fininreq s) as [|rq rest] eqn:Hq; [apply R2_refl|].
+  assert (Hnd : iq_task rq <> None). { destruct HI as (_ & _ & HI' & _). apply (i_fin_nd rules ctx0 s HI'). rewrite Hq. now left. }
+  pose proof (Inv_pop_fininreq rules ctx0 s rq rest Hq HI) as HI1.
+  eapply R2_trans; [apply QT_R2, QT_upd_fininreq|]. unfold deliver. destruct (iq_task rq) as [t|] eqn:Et; [|contradiction]. cbn zeta.
+  destruct (waiting_of_request rules (cx_set_fi ctx0 (rq :: cx_fi ctx0)) (upd_fininreq s rest) t rq (cx_fi ctx0) eq_refl Et HI1) as (ti & Hg & Hw & Hk & Hnr).
+  destruct (iq_order rq).
+  - apply QT_R2, QT_decrement_wait.
+  - eapply R2_trans; [apply R2_provide_value; apply krank_waiting; exact Hk|apply QT_R2, QT_decrement_wait].
+Qed.
+
+(* ---------- complete(): the task sees complete ---------- *)
+Lemma R2_task_finish rules s t : R2 s (task_finish rules s t).
+Proof.
+  unfold task_finish. destruct (aget (is_tasks s) t) as [ti|] eqn:Hg; [|apply R2_refl]. destruct (ti_pending ti) as [v|] eqn:Hp; [|apply R2_refl].
+  cbn zeta. set (s1 := set_ti s t (ti_with_pending None ti)). set (s2 := fold_left (fun s d => discovered s t d) (r_disc (rules t)) s1).
+  set (s3 := iemit s2 (EComplete t v)). intros Hn.
+  pose proof (QT_task_is_complete rules s3 t v Hn) as (Hn3 & lD & HlD & HpD & HqD).
+  assert (Hn2 : nf s2) by exact Hn3.
+  pose proof (QT_fold (fun s d => discovered s t d) (fun s d => QT_discovered s t d) (r_disc (rules t)) s1 Hn2) as (Hn1 & lB & HlB & HpB & HqB). fold s2 in HlB, HqB.
+  split; [unfold s1 in Hn1; now apply nf_set_ti in Hn1|].
+  (* the task's rule is InProgressComputing (otherwise taskIsComplete records a fault) *)
+  assert (Hk3 : kind_of s3 t = KComputing).
+  { unfold task_is_complete in Hn. destruct (kind_eqb (kind_of s3 t) KComputing) eqn:E; [now apply kind_eqb_eq|]. cbn [negb] in Hn. now apply nf_fault in Hn. }
+  pose proof (keeps_fold (fun s d => discovered s t d) (fun s d => keeps_discovered s t d) (r_disc (rules t)) s1) as (_ & K2 & _ & _ & _ & _ & _ & K8).
+  fold s2 in K2, K8.
+  assert (Hr : krank s t = 4%nat).
+  { assert (E : krank s t = krank s3 t).
+    { unfold krank. change (rinfo_of s3 t) with (rinfo_of s2 t). change (is_epoch s3) with (is_epoch s2). rewrite K2, K8. reflexivity. }
+    rewrite E. rewrite (krank_kind s3 t _ Hk3); [reflexivity|discriminate]. }
+  assert (Hps : pend s t = true) by (unfold pend; now rewrite Hg, Hp).
+  assert (Hp1 : forall k, pend s1 k = if N.eqb k t then false else pend s k).
+  { intros k. unfold s1. rewrite pend_set_ti. reflexivity. }
+  assert (Hr1 : forall k, krank s1 k = krank s k) by reflexivity.
+  exists (lD ++ [EComplete t v] ++ lB). split.
+  { rewrite HlD. unfold s3. autorewrite with iv. rewrite HlB. unfold s1. autorewrite with iv. now rewrite <- !app_assoc. }
+  intros k q Hok. rewrite !projl_app, HpD, HpB. cbn [projl pproj app].
+  assert (Hstep : forall q1, qok s1 k q1 -> qok (task_is_complete rules s3 t v) k q1).
+  { intros q1 H1. eapply qpres_qok; [apply HqD|]. change (qok s3 k q1) with (qok s2 k q1). eapply qpres_qok; [apply HqB|exact H1]. }
+  destruct (N.eqb k t) eqn:E.
+  - apply N.eqb_eq in E. subst k. cbn [app].
+    assert (Hq : q = HComputing).
+    { destruct q; cbn [qok] in Hok; auto; try lia; try (destruct Hok; lia). destruct Hok as [[_ Hpf]|Hok]; [congruence|lia]. }
+    subst q. cbn [runA stepA]. exists HFinished. split; auto. apply Hstep. cbn [qok]. left. rewrite Hr1, Hp1, N.eqb_refl. auto.
+  - cbn [app runA]. exists q. split; auto. apply Hstep. destruct q; cbn [qok] in *; rewrite ?Hr1, ?Hp1, ?E; auto.
+Qed.
+
+(* ---------- one ready task: the task sees avail (and complete, if it completes inside inputsAvailable) ---------- *)
+Lemma R2_avail_unit s t ti v : aget (is_tasks s) t = Some ti -> krank s t = 3%nat ->
+  R2 s (set_ti (iemit (set_kind s t KComputing) (EAvail t)) t (ti_with_pending (Some v) ti)).
+Proof.
+  intros Hg Hr Hn. split; [unfold nf in *; now autorewrite with iv in Hn|].
+  exists [EAvail t]. split; [now autorewrite with iv|].
+  set (s' := set_ti _ t _).
+  assert (Hk : forall k, krank s' k = if N.eqb k t then 4%nat else krank s k).
+  { intros k. unfold s'. rewrite krank_set_ti, krank_iemit. unfold set_kind. rewrite krank_mod_ri. destruct (N.eqb k t); auto. }
+  assert (Hp : forall k, pend s' k = if N.eqb k t then true else pend s k).
+  { intros k. unfold s'. rewrite pend_set_ti. destruct (N.eqb k t); auto. }
+  intros k q Hok. cbn [projl pproj app]. destruct (N.eqb k t) eqn:E.
+  - apply N.eqb_eq in E. subst k. destruct q; cbn [qok] in Hok; try lia; try (destruct Hok; lia); try (destruct Hok as [[Hok _]|Hok]; lia);
+      cbn [runA stepA]; exists HComputing; (split; [reflexivity|]); cbn [qok]; rewrite Hk, Hp, N.eqb_refl; auto.
+  - cbn [runA]. exists q. split; auto. destruct q; cbn [qok] in *; rewrite ?Hk, ?Hp, ?E; auto.
+Qed.
+
+Lemma R2_step_ready rules env F syncp s : R2 s (step_ready rules env F syncp s).
+Proof.
+  unfold step_ready. destruct (is_ready s) as [|t rest] eqn:Hq; [apply R2_refl|]. unfold run_ready, inputs_available. cbn zeta.
+  set (s0 := upd_ready s rest). destruct (kind_eqb (kind_of s0 t) KWaiting) eqn:Ek.
+  2:{ intros Hn. exfalso. unfold nf in Hn. rewrite is_fault_upd_outstanding in Hn.
+      match type of Hn with is_fault ?x = None => fold (nf x) in Hn end. apply sticky_avail_body in Hn.
+      unfold nf in Hn. autorewrite with iv in Hn. cbn [check] in Hn. fold (nf (fault s0 FNotWaiting)) in Hn. now apply nf_fault in Hn. }
+  cbn [check]. apply kind_eqb_eq in Ek.
+  eapply R2_trans; [apply QT_R2, (QT_upd_ready s rest)|]. fold s0.
+  eapply R2_trans; [|apply QT_R2, QT_upd_outstanding].
+  unfold avail_body. change (aget (is_tasks (iemit (set_kind s0 t KComputing) (EAvail t))) t) with (aget (is_tasks s0) t).
+  destruct (aget (is_tasks s0) t) as [ti|] eqn:Hg; [|intros Hn; now apply nf_fault in Hn]. cbn zeta.
+  pose proof (R2_avail_unit s0 t ti (task_value rules env F t ti) Hg (krank_waiting s0 t Ek)) as HA.
+  destruct (syncp t); [eapply R2_trans; [exact HA|apply R2_task_finish]|exact HA].
+Qed.
+
+(* ---------- one finished task: nothing for the tasks to see ---------- *)
+Lemma krank_unloaded s k : aget (is_rules s) k = None -> krank s k = 0%nat.
+Proof. intros H. unfold krank. destruct (rinfo_of_none s k H) as [r ->]. reflexivity. Qed.
+
+Lemma db_write_krank s t k : krank (db_write s t) k = krank s k.
+Proof.
+  destruct (aget (is_rules s) k) as [ri|] eqn:E.
+  - unfold krank. rewrite db_write_loaded; [|unfold loaded; congruence]. unfold db_write. now destruct (is_usedb s).
+  - rewrite (krank_unloaded s k E). apply krank_unloaded. destruct (db_write_fields s t) as (-> & _). exact E.
+Qed.
+
+Lemma finish_task_views s t rest ti : aget (is_tasks s) t = Some ti -> kind_of s t = KComputing ->
+  let s' := finish_task (upd_fintasks s rest) t in
+  (forall k, krank s' k = if N.eqb k t then 5%nat else krank s k) /\ (forall k, pend s' k = if N.eqb k t then false else pend s k) /\
+  is_log s' = is_log s /\ (nf s' -> nf s).
+Proof.
+  intros Hg Hk. cbn zeta. unfold finish_task. change (aget (is_tasks (upd_fintasks s rest)) t) with (aget (is_tasks s) t). rewrite Hg. cbn zeta.
+  change (kind_of (upd_fintasks s rest) t) with (kind_of s t). rewrite Hk. cbn [kind_eqb check].
+  set (s0 := upd_fintasks s rest). set (s2 := mod_ri (set_complete s0 t) t (ri_append_deps (ti_disc ti))).
+  destruct (push_dummies_views (ti_disc ti) s2) as (P1 & _ & _ & _ & _ & P6 & _ & _ & _ & _ & _ & _ & _ & P14 & P15).
+  set (s3 := push_dummies s2 (ti_disc ti)) in *.
+  destruct (db_write_fields s3 t) as (_ & D2 & _ & _ & _ & _ & _ & _ & D9).
+  assert (K3 : forall k, krank s3 k = if N.eqb k t then 5%nat else krank s k).
+  { intros k. unfold krank. rewrite P1, P15. unfold s2, set_complete. autorewrite with iv. rewrite N.eqb_refl. destruct (N.eqb k t); [|reflexivity].
+    unfold rrank, ri_append_deps, ri_complete, ri_with_res, ri_with_kind, res_with_deps, res_with_built. cbn [ri_kind ri_res res_builtAt]. now rewrite N.eqb_refl. }
+  split; [|split; [|split]].
+  - intros k. unfold retire_task, wake_task_waiters.
+    change (krank (upd_tasks (upd_outstanding (upd_fininreq (upd_toscan (db_write s3 t) _) _) _) _) k) with (krank (db_write s3 t) k).
+    rewrite db_write_krank. apply K3.
+  - intros k. unfold pend, retire_task, wake_task_waiters. autorewrite with iv. rewrite D2, P6. change (is_tasks s2) with (is_tasks s).
+    rewrite aget_adel. now destruct (N.eqb k t).
+  - unfold retire_task, wake_task_waiters, db_write. destruct (is_usedb s3); autorewrite with iv; unfold s3; now rewrite push_dummies_log.
+  - unfold nf, retire_task, wake_task_waiters. autorewrite with iv. rewrite D9, P14. auto.
+Qed.
+
+Lemma R2_step_fintask rules s : Inv rules ctx0 s -> R2 s (step_fintask s).
+Proof.
+  intros HI. unfold step_fintask. destruct (is_fintasks s) as [|t rest] eqn:Hq; [apply R2_refl|].
+  pose proof HI as (_ & HT & _). destruct (t_ft ctx0 s HT t) as (ti & Hg & Hk & Hp); [rewrite Hq; now left|].
+  destruct (finish_task_views s t rest ti Hg Hk) as (V1 & V2 & V3 & V4). intros Hn. split; auto. exists []. split; [exact V3|].
+  intros k q Hok. exists q. split; auto.
+  assert (Hr : krank s t = 4%nat) by (rewrite (krank_kind s t _ Hk); [reflexivity|discriminate]).
+  assert (Hpf : pend s t = false) by (unfold pend; now rewrite Hg, Hp).
+  destruct (N.eqb k t) eqn:E.
+  - apply N.eqb_eq in E. subst k. destruct q; cbn [qok] in *; rewrite ?V1, ?V2, ?N.eqb_refl; try lia; try (destruct Hok; lia); auto.
+    destruct Hok; congruence.
+  - destruct q; cbn [qok] in *; rewrite ?V1, ?V2, ?E; auto.
+Qed.
+
+(* ---------- the protocol automaton accepts what the structure automaton accepts ---------- *)
+Fixpoint provided (evs : list pevent) : list nat :=
+  match evs with [] => [] | PProvide s :: t => s :: provided t | _ :: t => provided t end.
+
+Lemma runA_finished evs q' : runA HFinished evs = Some q' -> evs = [].
+Proof. destruct evs as [|e t]; auto. cbn [runA stepA]. destruct e; discriminate. Qed.
+Lemma runA_computing req evs q' : runA HComputing evs = Some q' -> provided evs = [] /\ exists st', proto_run req PSComputing evs = Some st'.
+Proof.
+  destruct evs as [|e t]; [intros _; split; [reflexivity|exists PSComputing; reflexivity]|]. cbn [runA stepA]. destruct e; try discriminate. intros H.
+  apply runA_finished in H. subst t. split; [reflexivity|]. exists PSFinished. reflexivity.
+Qed.
+Lemma runA_started req evs : forall q q' b, runA q evs = Some q' -> (q = HStartedA /\ b = true) \/ (q = HStartedB /\ b = false) ->
+  exists st', proto_run req (PSStarted b (provided evs)) evs = Some st'.
+Proof.
+  induction evs as [|e t IH]; intros q q' b Hr Hq; [exists (PSStarted b []); reflexivity|]. cbn [runA] in Hr.
+  destruct Hq as [[-> ->]|[-> ->]]; destruct e; cbn [stepA] in Hr; try discriminate; cbn [proto_run proto_step provided remove1].
+  - eapply IH; eauto.
+  - rewrite Nat.eqb_refl. eapply IH; eauto.
+  - destruct (runA_computing req t q' Hr) as (Hp & st' & Hst). rewrite Hp. eauto.
+  - rewrite Nat.eqb_refl. eapply IH; eauto.
+  - destruct (runA_computing req t q' Hr) as (Hp & st' & Hst). rewrite Hp. eauto.
+Qed.
+Theorem runA_proto evs q' : runA HInit evs = Some q' -> proto_prefix_ok (provided evs) evs = true.
+Proof.
+  unfold proto_prefix_ok. destruct evs as [|e t]; [reflexivity|]. cbn [runA stepA]. destruct e; try discriminate. intros H.
+  cbn [proto_run proto_step provided]. destruct (runA_started (provided t) t HStartedA q' true H) as (st' & ->); auto.
+Qed.
+
+Section Proto.
+Variable rules : key -> rule.
+Variable env : key -> N.
+Variable F : key -> N -> list value -> list N -> N -> N.
+Variable ord : key -> list rkind.
+Variable syncp : key -> bool.
+
+Lemma R2_mstep s s' : Inv rules ctx0 s -> mstep rules env F ord syncp s s' -> R2 s s'.
+Proof.
+  intros HI H. destruct H.
+  - apply R2_task_finish.
+  - now apply R2_step_scan.
+  - now apply R2_step_inreq.
+  - now apply R2_step_fininreq.
+  - apply R2_step_ready.
+  - now apply (R2_step_fintask rules).
+Qed.
+
+Lemma R2_msteps s s' : Inv rules ctx0 s -> msteps rules env F ord syncp s s' -> R2 s s'.
+Proof.
+  intros HI H. induction H as [|s s' s'' H IH Hs]; [apply R2_refl|].
+  eapply R2_trans; [exact (IH HI)|]. apply R2_mstep; auto. eapply Inv_msteps; eauto.
+Qed.
+
+(* Each task's view of a build is accepted (as a prefix) by the protocol automaton of C06 for the request multiset made of the slots it
+   was provided: start first and once, the prior value only right after start, provides only before inputsAvailable, inputsAvailable
+   once, complete only after it and once. *)
+Theorem protocol_prefix s0 root s : in_build rules env F ord syncp s0 root s ->
+  exists l, is_log s = l ++ is_log (start_build (iemit (bump s0) (EBuildStart root)) root) /\
+            forall k, proto_prefix_ok (provided (projl k l)) (projl k l) = true.
+Proof.
+  intros [Q M]. pose proof (Inv_start rules s0 root Q) as HI0.
+  assert (Hn : nf s) by (apply (Inv_msteps rules env F ord syncp _ _ M HI0)).
+  destruct (R2_msteps _ _ HI0 M Hn) as (_ & l & Hl & Hq). exists l. split; auto.
+  intros k. destruct (Hq k HInit) as (q' & Hr & _).
+  - (* at the start of the build no rule is in progress *)
+    cbn [qok]. destruct Q as (_ & _ & _ & _ & _ & _ & _ & _ & Q9). destruct (Q9 k) as (H1 & H2 & H3 & _).
+    set (st := start_build (iemit (bump s0) (EBuildStart root)) root).
+    assert (Hk : kind_of st k = kind_of s0 k) by (unfold st, start_build, kind_of; now autorewrite with iv).
+    pose proof (rrank_le5 (is_epoch st) (rinfo_of st k)) as Hle. unfold krank. unfold rrank in *. fold (kind_of st k) in *. rewrite Hk in *.
+    destruct (kind_of s0 k); try contradiction; try lia. destruct (N.eqb _ _); lia.
+  - eapply runA_proto; eauto.
+Qed.
+End Proto.
